@@ -336,7 +336,7 @@ class Evaluator:
             if f.id in self.genv and callable(self.genv[f.id]):
                 return self.genv[f.id](*args, **kwargs)
             if f.id in ("str", "int", "len", "range", "abs", "min", "max", "bool", "list", "tuple", "set", "any", "all",
-                        "sorted", "isinstance", "type", "dict", "float", "hex", "enumerate", "zip", "reversed", "sum"):
+                        "sorted", "isinstance", "type", "dict", "float", "hex", "enumerate", "zip", "reversed", "sum", "map", "filter"):
                 try:
                     return SAFE_BUILTINS[f.id](*args, **kwargs)
                 except (ValueError, TypeError) as ex:
